@@ -646,6 +646,64 @@ def _pickle_histories(chk):
             "B4 exact evaluation", th)
 
 
+_REPLAY_CORRECT_HIT = """
+import warnings, logging
+warnings.filterwarnings("ignore"); logging.disable(logging.CRITICAL)
+from hiten import System
+l1 = System.from_bodies("earth", "moon").get_libration_point(1)
+o = l1.create_orbit("halo", amplitude_z=0.2, zenith="southern")
+o.correct(); T = o.period
+seen = []
+for _ in range(3):
+    o.period = 3.0
+    o.correct()
+    seen.append(o.period)
+print("corrected period", T, "; period after each  (period = 3.0; correct())  round:", seen)
+print("CONFIRMED" if any(abs(p - T) > 1e-6 for p in seen) else "NOT-CONFIRMED")
+"""
+
+
+def _correct_history(chk):
+    """correct() leaves the orbit in the corrected state on EVERY call - a cache hit is a public operation too"""
+    import hiten.algorithms.types.services.base as sb
+    import hiten.algorithms.types.services.orbits as so
+    from pyvc.core import real_self
+
+    def th():
+        dyn = real_self(so._OrbitDynamicsService)
+        sb._DynamicsServiceBase.__init__(dyn, "ORBIT")
+        dyn._initial_state, dyn._period, dyn._trajectory, dyn._stability_info = _np.array([9.0, 0, 0, 0, 9.0, 0]), None, None, None
+
+        class Orbit:
+            dynamics = dyn
+            initial_state = property(lambda self: dyn.initial_state)
+            period = property(lambda self: dyn.period)
+        orbit = Orbit()
+        n_corr = []
+
+        def corrector_correct(domain_obj, options=None):
+            n_corr.append(1)
+            return _Obj(x_corrected=_np.array([1.0, 0, 0, 0, 2.0, 0]), half_period=1.25, iterations=3, residual_norm=0.0)
+        svc = real_self(so._OrbitCorrectionService, _domain_obj=orbit, corrector=_Obj(correct=corrector_correct),
+                        correction_options=_Obj(to_dict=lambda: {"tol": 1e-12}))
+        sb._DynamicsServiceBase.__init__(svc, orbit)
+        svc.corrector = _Obj(correct=corrector_correct) if not hasattr(type(svc), "corrector") else svc.corrector
+        history = ["correct"]
+        so._OrbitCorrectionService.correct(svc)
+        for k in range(3):
+            dyn.period = 3.0
+            history += ["period = 3.0", "correct"]
+            so._OrbitCorrectionService.correct(svc)
+            if dyn.period != 2.5 or list(dyn.initial_state) != [1.0, 0, 0, 0, 2.0, 0]:
+                raise Refuted(f"after the history {history} the orbit has period {dyn.period!r} and state "
+                              f"{list(dyn.initial_state)} - a fresh orbit in the same logical state would be corrected to period "
+                              f"2.5; the corrector ran {len(n_corr)} times", "a cache hit of correct() does not install the "
+                              "corrected state", replay=_REPLAY_CORRECT_HIT, inputs={"history": history})
+    chk.obl("correct(): after EVERY call (cache hit or miss) the orbit carries the corrected state and period (history correct; "
+            "period = 3.0; correct; period = 3.0; correct; ...)", "K2 postconditions (closed histories)",
+            ["hiten.algorithms.types.services.orbits:_OrbitCorrectionService.correct"], "B4 exact evaluation", th)
+
+
 def _primitives(chk):
     import hiten.algorithms.types.services.base as sb
 
@@ -809,6 +867,7 @@ def run(chk):
     _primitives(chk)
     _latest_results(chk)
     _handed_out_objects(chk)
+    _correct_history(chk)
     _pickle_histories(chk)
     if chk.tier == "thorough":
         _io_witness(chk)
